@@ -149,7 +149,7 @@ def lean_lemmas():
         st = "ok" if p.returncode == 0 and "error" not in out else "failed"
     except Exception as e:  # noqa: BLE001
         out, st = str(e), "failed"
-    c = {"sha": sha, "status": st, "seconds": round(time.time() - t0, 1), "output": out[-800:], "at": time.time(), "theorems": ["LS_prefix", "LS_lin_eq", "LS_lin_mod", "LS_store", "LS_mono", "LS_floor", "LS_cum_mono", "LB_boundary", "LB_count"]}
+    c = {"sha": sha, "status": st, "seconds": round(time.time() - t0, 1), "output": out[-800:], "at": time.time(), "theorems": ["LS_prefix", "LS_lin_eq", "LS_lin_mod", "LS_store", "LS_mono", "LS_floor", "LS_cum_mono", "LB_boundary", "LB_count", "AX_mul_comm", "AX_mul_mono", "AX_mul_nonneg", "AX_sq_nonneg", "AX_sq_mono"]}
     os.makedirs(EVID, exist_ok=True)
     json.dump(c, open(cache, "w"))
     return c
